@@ -148,6 +148,21 @@ def focused(tier):
     mk("cycle2 two priority classes", [node(c=1, cap=1), node(c=1, cap=0)],
        {"A": klass([ARR, None], [[1.0, 2.0], [1.0, 0.5]], route=matrix([[0.0, 1.0], [1.0, 0.0]]), prio=1),
         "B": klass([[1.0, 2.0], None], [[1.0, 2.0], [1.0, 0.5]], route=matrix([[0.0, 1.0], [0.5, 0.0]]), prio=0)})
+    # a blocking cycle that is NOT a deadlock (another server of the node still works) next to a genuine knot elsewhere
+    z3 = [[0.0] * 3 for _ in range(3)]
+    mk("non-knot cycle + self-blocking third node", [node(c=2, cap=0), node(c=1, cap=0), node(c=1, cap=0)],
+       {"W": klass([{"values": [1.0], "budget": 1}, None, None], [[10.0], [1.0], [1.0]], route=matrix(z3)),
+        "X": klass([{"values": [2.0, 1.5], "budget": 1}, None, None], [[1.0], [1.0], [1.0]], route=matrix([[0.0, 1.0, 0.0], [0.0] * 3, [0.0] * 3])),
+        "Y": klass([None, {"values": [2.0, 1.5], "budget": 1}, None], [[1.0], [2.0, 1.0], [1.0]], route=matrix([[0.0] * 3, [1.0, 0.0, 0.0], [0.0] * 3])),
+        "Z": klass([None, None, {"values": [5.0, 3.5, 0.5], "budget": 1}], [[1.0], [1.0], [1.0, 4.0]], route=matrix([[0.0] * 3, [0.0] * 3, [0.0, 0.0, 1.0]]))},
+       max_exec=200000)
+    out[-1]["max_events"] = 30
+    out[-1]["D"] = INF
+    # a deadlock that forms at clock 0.0 (arrival at t=0 with a zero service time)
+    mk("deadlock at time zero", [node(c=1, cap=0), node(c=1, cap=0)],
+       {"Z": klass([{"values": [0.0, 0.5], "budget": 1}, None], [[0.0, 1.0], [1.0]], route=matrix([[1.0, 0.0], [0.0, 0.0]])),
+        "Y": klass([None, {"values": [1.0, 0.0], "budget": 2}], [[1.0], [1.0, 0.0]], route=matrix([[0.0, 0.0], [1.0, 0.0]]))})
+    out[-1]["D"] = INF
     mk("multi-server partial blockage", [node(c=2, cap=0), node(c=1, cap=0), node(c=1)],
        {"A": klass([[0.5, 0.25], None, None], [[1.0, 2.0], [2.0, 1.0], [1.0]], route=matrix([[0.0, 0.5, 0.5], [1.0, 0.0, 0.0], [0.0, 0.0, 0.0]]))})
     return out
